@@ -6,6 +6,9 @@ coder (asn1tools is trusted) and compared field by field with the independent ma
 re-encoding the decoded value must reproduce the octets; generation must neither raise nor be skipped.
 
 Lattices
+  dense     (thorough) complete one-field sweeps at the resolution of the data element: speed 0..200 m/s in 0.01, track
+            0..360 in 0.05, altitude -1100..8100 m in 0.25, epx/epy 0..45 m in 0.01, epd 0..13 in 0.01, epv 0..210 in 0.05,
+            lat/lon over the whole range in 0.01 deg
   values    per-field threshold lattices (every rule threshold of the data element +-1 resolution step, domain
             boundaries, sign boundaries) swept one field at a time against two base reports (northern/eastern and
             southern/western hemisphere), plus every pair of fields over their lattices
@@ -330,6 +333,37 @@ def _value_job(args):
                              cause_input=v1 if not f2 else [v1, v2], interaction=bool(f2))
                     bad.append((r, dict(call="value", msg=msg, base=base, over=over, variant=variant)))
     return n, bad, len(distinct), tainted
+
+
+DENSE = {   # thorough tier: complete 1-D sweeps at (or below) the resolution of the data element, (lo, hi, step)
+    "speed": (0.0, 200.0, 0.01), "track": (0.0, 360.0, 0.05), "altHAE": (-1100.0, 8100.0, 0.25), "epx": (0.0, 45.0, 0.01),
+    "epy": (0.0, 45.0, 0.01), "epd": (0.0, 13.0, 0.01), "epv": (0.0, 210.0, 0.05), "lat": (-90.0, 90.0, 0.01), "lon": (-180.0, 180.0, 0.01),
+}
+
+
+def _dense_job(args):
+    """Complete sweep of one field in [i0, i1) steps of its dense lattice on the NE base (CAM and first VAM)."""
+    field, i0, i1 = args
+    lo, hi, step = DENSE[field]
+    n = 0
+    bad = []
+    distinct = set()
+    for i in range(i0, i1):
+        v = round(lo + i * step, 6)
+        if v > hi:
+            break
+        tpv = mk_report("ne", {field: v})
+        for variant in ("cam", "vam1"):
+            n += 1
+            sent, recs = _gen_judge(variant, tpv)
+            for s in sent:
+                distinct.add(s.data)
+            for r in recs:
+                if (r["kind"], r.get("field")) in base_sig(variant, "ne"):
+                    continue
+                r.update(base="ne", variant=variant, cause_field=field, cause_input=v, interaction=False)
+                bad.append((r, dict(call="value", msg=variant[:3], base="ne", over={field: v}, variant=variant)))
+    return n, bad, len(distinct)
 
 
 def _subset_job(args):
@@ -762,6 +796,12 @@ def run(ctx):
         pairs = list(itertools.combinations(vf, 2))
         jobs = [(m, b, f1, f2, thorough) for m in ("cam", "vam") for b in (BASES if thorough else ["ne"]) for f1, f2 in pairs]
         drain("values_pairs", _value_job, jobs)
+        if thorough:
+            jobs = []
+            for f, (lo, hi, step) in DENSE.items():
+                steps = int(round((hi - lo) / step)) + 1
+                jobs += [(f, i, min(i + 500, steps)) for i in range(0, steps, 500)]
+            drain("values_dense", _dense_job, jobs)
         # ---- subsets of the optional fields -----------------------------------------------------------------
         masks = list(range(1 << len(FIELDS)))
         jobs = [(m, b, masks[i:i + 64]) for m in ("cam", "vam") for b in BASES for i in range(0, len(masks), 64)]
